@@ -283,13 +283,17 @@ class DirectoryRecord:
             self._printable_name = self.file_ident
 
         if self.parent is not None:
+            susp_sigs = (b'SP', b'RR', b'CE', b'PX', b'ER', b'ES', b'PN', b'SL', b'NM', b'CL', b'PL', b'TF', b'SF', b'RE', b'AL')
             xa_rec = XARecord()
-            if xa_rec.parse(record[record_offset:], self.len_fi):
+            # If the system use area starts with a SUSP entry, there is no XA
+            # record in front of it; don't go looking for the 'XA' signature
+            # inside the Rock Ridge data (e.g. in a name).
+            if record[record_offset:record_offset + 2] not in susp_sigs and xa_rec.parse(record[record_offset:], self.len_fi):
                 self.xa_record = xa_rec
                 record_offset += len(self.xa_record.record())
 
             if len(record[record_offset:]) >= 2 and \
-               record[record_offset:record_offset + 2] in (b'SP', b'RR', b'CE', b'PX', b'ER', b'ES', b'PN', b'SL', b'NM', b'CL', b'PL', b'TF', b'SF', b'RE', b'AL'):
+               record[record_offset:record_offset + 2] in susp_sigs:
                 self.rock_ridge = rockridge.RockRidge()
 
                 is_first_dir_record_of_root = False
